@@ -71,6 +71,10 @@ CHECKS = {
    technique="exhaustive enumeration of (TTL vector x elapsed time x probe key) through the real cache functions under tokio's paused clock, plus explicit event sequences (ask, advance, ask) on the live service with upstream queries counted",
    text="For every TTL vector of the grammar the real calculate_expiry/insert/get_entry/expire are driven at 8 instants around the expiry with 7 probe keys, before and after an expiry sweep: a hit requires the same key and elapsed <= min TTL, served TTLs = original - floor(elapsed), no wrap (overflow checks on). The live part asks the same question at +0, +1.5 s and just past expiry over UDP and TCP, class IN and CH, and varies each key component.",
    note="The hook's insert is unconditional like the private function; the 'only cache when lifetime > 0' rule is decided by the live part. Case variants of a name and the query's AD bit are don't-care."),
+ "C18": dict(level="fault_enumeration", engine="E-HIST (history mode) + E-CRASH", design="5/C18",
+   technique="exhaustive kill-point enumeration (a child process dies before every write-class libc call SQLite issues, by symbol interposition) plus exhaustive history enumeration with a reopen-differential at every step, plus enumeration of v0/newer-version databases",
+   text="Every write-class syscall of each history (set-up of a fresh store, upgrade of a v0 store, 1-4 colliding allocations) is a kill point; after each kill the file must reopen, hold exactly the state after j or j+1 acknowledged operations, and continue like the uninterrupted run. Restart equivalence is decided by comparing, at every message of every history, the long-lived store with a store reopened on a copy of its file.",
+   note="Process kill, not power loss (the page cache survives). _exit before the call stands in for SIGKILL. Scratch files live in /dev/shm (tmpfs) and are removed."),
 }
 
 NOT_YET = {
